@@ -120,9 +120,10 @@ class SMCSampler(MCMCSampler):
             The new minimum step size if adaptive_min_step is True.
         """
         if not self.adaptive:
-            beta += beta_step
-            if beta >= 1.0:
-                beta = 1.0
+            # Recover the step index from beta instead of accumulating
+            # beta_step: n additions of 1/n need not reach exactly 1.0
+            n_steps = round(1 / beta_step)
+            beta = min((round(beta * n_steps) + 1) / n_steps, 1.0)
         else:
             beta_prev = beta
             beta_min = beta_prev
